@@ -517,8 +517,12 @@ def _check_intersection(v, A, B, R, where):
     l = B.shape[0]
     d = k + l - n
     if R.shape != (d, n):
-        v.append(_V("intersect/shape/" + where, "dims (%d,%d) in R^%d: result shape %r, expected %r" % (k, l, n, R.shape, (d, n))))
+        v.append(_V("intersect/shape/" + where + ("/complementary" if d == 0 else ""),
+                    "dims (%d,%d) in R^%d: result shape %r, expected %r%s" % (
+                        k, l, n, R.shape, (d, n), " (complementary subspaces meet in the empty projective subspace)" if d == 0 else "")))
         return
+    if d == 0:
+        return          # complementary subspaces: the empty spanning set, nothing more to say
     if not np.all(np.isfinite(R)) or L.num_rank(L.rows_normalised(R), RANK_RTOL) != d:
         v.append(_V("intersect/dimension/" + where, "A=%r B=%r: result rows %r do not span a %d-dimensional space" % (A.tolist(), B.tolist(), R.tolist(), d)))
         return
@@ -1108,7 +1112,8 @@ def run(ctx):
     ctx.assume("a point is outside chart i exactly when its i-th homogeneous coordinate is exactly 0 (real or complex)")
     ctx.assume("column layout needs at least two array axes (a single column vector is a (N,1) array)")
     ctx.assume("Subspace.intersect: both spanning sets are linearly independent, the pair is transverse (stacked exact rank = N+1) and the "
-               "intersection is non-empty (k + l >= N + 2 in vector-space dimensions); composite operands contain transverse pairs only")
+               "expected dimension k + l - (N + 1) >= 0 in vector-space dimensions (k + l = N + 1: complementary subspaces, the intersection is the "
+               "empty subspace, reported as a spanning set with 0 rows); composite operands contain transverse pairs only")
     ctx.assume("eigenvector / diagonalize: diagonalisable matrices with real integer eigenvalues (repeated eigenvalues allowed)")
     ctx.assume("eigenvector(lambda) for a lambda that is not an eigenvalue (decided exactly: lambda does not occur in D; all eigenvalues and "
                "requested values are >= 0.5 apart, far outside np.isclose): a single transformation may raise GeometryError or return zero "
@@ -1197,13 +1202,13 @@ def run(ctx):
         pool = subspace_pool(n, extra, seed)
         for k in range(1, n + 1):
             for l in range(1, n + 1):
-                if k + l < n + 1:
-                    continue
+                if k + l < n:
+                    continue               # k + l = n: complementary subspaces, expected intersection empty (0 rows)
                 for comb in itertools.combinations(range(len(pool)), k):
                     int_cases.append({"n": n, "k": k, "l": l, "pool": pool, "A": list(comb)})
     ctx.product("subspace-intersect", "checks.c16:case_intersect", int_cases,
                 domains={"ambient vector dimension": "2..6", "pool": "standard basis + 1..2 Vandermonde rows (seed rotates the nodes)",
-                         "pairs": "every k-subset x every transverse l-subset, k+l >= n+1", "broadcast": ["single", "elementwise", "pairwise"]}, chunk=16)
+                         "pairs": "every k-subset x every transverse l-subset, k+l >= n (k+l = n: complementary, result has 0 rows)", "broadcast": ["single", "elementwise", "pairwise"]}, chunk=16)
 
     eig_cases, eig_batch = [], []
     vals = [1, 2, -1, 3]
